@@ -717,6 +717,12 @@ def oracle(c, obs):
                 want = U
             if r[key] != want:
                 return "A.%s of the merged instance is %s, expected %s" % ("xy"[col], r[key], want)
+        # --- load=True: a copied value that differs from what the instance held is flagged as a change
+        if load and r["stt"] == 2 and (existed or pk in rowsA):
+            prev = (base["c1"], base["c2"]) if base is not None else rowsA[pk]
+            changed = any(sv != U and pv != U and sv != pv for sv, pv in ((x, prev[0]), (y, prev[1])))
+            if changed and not r["dirty"]:
+                return "merge(load=True) changed a column of A(%s) without flagging the instance as modified" % pk
         # --- children (only when their keys are pairwise distinct: otherwise the last writer wins)
         if mf and bs != U:
             keys = [srcB[j][1] for j in bs]
